@@ -282,4 +282,74 @@ theorem glob_empty_pattern (cand : Bytes) : glob [] cand = cand.isEmpty := by
   unfold glob
   cases cand <;> simp [globAux]
 
+/-! ### SORT (repaired: it used to ignore BY / LIMIT / GET and to compare nothing) -/
+
+
+/-- SORT without STORE never changes the database, whatever its options and whatever the keys hold -/
+theorem sort_without_store_pure (c : Ctx) (db : Db) (key : Bytes) (by_ : Option Bytes) (limit : Option (Int × Int))
+    (gets : List Bytes) (desc alpha : Bool) :
+    (cmdSort c db key by_ limit gets desc alpha none).db = db := by
+  unfold cmdSort
+  split
+  · rfl
+  · rfl
+  · split <;> rfl
+
+/-- SORT of a key that holds a string or a hash fails with WRONGTYPE and changes nothing, STORE or not -/
+theorem sort_wrongtype_inert (c : Ctx) (db : Db) (key : Bytes) (by_ : Option Bytes) (limit : Option (Int × Int))
+    (gets : List Bytes) (desc alpha : Bool) (store : Option Bytes)
+    (h : sortSource c db key = .error ()) :
+    cmdSort c db key by_ limit gets desc alpha store = R.ok db wrongType := by
+  unfold cmdSort; rw [h]
+
+/-- SORT … STORE of a missing source removes the destination (no empty list is left behind) -/
+theorem sort_store_missing_source (c : Ctx) (db : Db) (key d : Bytes) (by_ : Option Bytes) (limit : Option (Int × Int))
+    (gets : List Bytes) (desc alpha : Bool) (h : sortSource c db key = .ok none) :
+    cmdSort c db key by_ limit gets desc alpha (some d) = R.ok (db.del d) (.int 0) := by
+  unfold cmdSort; rw [h]; simp [sortFinish]
+
+/-- what SORT … STORE leaves in the destination: exactly the result, as a list, never an empty one -/
+theorem sortFinish_store (db : Db) (d : Bytes) (out : List Value) (hint : Match) (hne : out ≠ []) :
+    ((sortFinish db (some d) out hint).db.raw d).map (·.val) =
+      some (.list (out.map fun v => match v with | .bulk b => b | _ => [])) := by
+  unfold sortFinish
+  have : out.isEmpty = false := by cases out <;> simp_all
+  simp [this, R.ok, Db.put, Db.raw]
+  intro a _; rfl
+
+theorem sortFinish_store_empty (db : Db) (d : Bytes) (hint : Match) :
+    (sortFinish db (some d) [] hint).db = db.del d := by
+  simp [sortFinish, R.ok]
+
+theorem mapM_some' {α β} (f : α → β) (xs : List α) : xs.mapM (fun x => some (f x)) = some (xs.map f) := by
+  induction xs with
+  | nil => rfl
+  | cons x r ih => simp [List.mapM_cons, ih]
+
+/-- with ALPHA and without BY, LIMIT and GET the reply is a rearrangement of the elements: nothing is
+    lost, nothing invented, duplicates keep their number -/
+theorem sort_is_rearrangement (c : Ctx) (db : Db) (xs : List Bytes) (isSet desc storing : Bool)
+    (out : List Value) (hint : Match)
+    (h : sortCompute c db xs isSet none none [] desc true storing = some (out, hint)) :
+    out.Perm (xs.map Value.bulk) := by
+  unfold sortCompute at h
+  simp only [Bool.false_and, Bool.false_eq_true, if_false, Bool.not_false, Bool.or_false,
+    if_true, Bool.and_true] at h
+  rw [mapM_some'] at h
+  simp only [Option.map_some, Option.some.injEq, Prod.mk.injEq] at h
+  obtain ⟨hout, _⟩ := h
+  subst hout
+  simp only [List.isEmpty_nil, if_true, List.map_cons, List.map_nil, beq_self_eq_true]
+  have hp := List.mergeSort_perm (xs.map fun x => ({ data := x, str := x, w := .fin ⟨0, 0⟩ } : SortItem))
+    (fun a b => if desc then !(sortLess true a b) else !(sortLess true b a))
+  have h2 := hp.map (fun it : SortItem => Value.bulk it.data)
+  simp only [List.map_map] at h2
+  have e : ((fun it : SortItem => Value.bulk it.data) ∘ fun x => ({ data := x, str := x, w := .fin ⟨0, 0⟩ } : SortItem)) = Value.bulk := rfl
+  rw [e] at h2
+  refine List.Perm.trans ?_ h2
+  have flat : ∀ (l : List SortItem), List.flatMap (fun it => [Value.bulk it.data]) l = l.map (fun it => Value.bulk it.data) := by
+    intro l; induction l with
+    | nil => rfl
+    | cons a r ih => simp [List.flatMap_cons, ih]
+  rw [flat]
 end RedisEmu
